@@ -5,7 +5,9 @@ The configuration of `_walk` plus `safety` = {flag: bool} for the six flags of `
 takes as parameters: the iteration order of the python set `trusted_edges_for_safety`, the SCC numbering
 `nx.condensation(G).graph["mapping"]` and the antichain returned by `compute_max_edge_antichain` of the expanded
 condensation (as `K1.longest_incompatible` of props/c06.py). They are stored in cfg["_cap"]."""
+from collections import deque
 from fpv import lpdump
+from fpv.common import Infra
 from . import _walk
 
 FLAGS = {"safe_sequences": "optimize_with_safe_sequences",
@@ -46,6 +48,43 @@ def kwargs(cfg):
     return kw
 
 
+def t6_contracts(G, antichain):
+    """the hypotheses of FP.Props.C05.*_full / C06.incompatible_sound about the two captured oracle parameters, by direct
+    search on the real stDiGraph `G`: the numbering is an SCC numbering (else Infra: a networkx value), and the members
+    of the antichain are pairwise unreachable in the expanded condensation (rebuilt from the numbering). Returns
+    "ok" or "VIOLATED"."""
+    nodes = list(G.nodes()); edges = list(G.edges()); lab = G._condensation.graph["mapping"]
+
+    def reach(adj, a):
+        seen = {a}; dq = deque([a])
+        while dq:
+            x = dq.popleft()
+            for y in adj.get(x, []):
+                if y not in seen:
+                    seen.add(y); dq.append(y)
+        return seen
+    out = {}
+    for (u, v) in edges:
+        out.setdefault(u, []).append(v)
+    R = {v: reach(out, v) for v in nodes}
+    for u in nodes:
+        for v in nodes:
+            if (lab[u] == lab[v]) != (v in R[u] and u in R[v]):
+                raise Infra(f"nx.condensation mapping is not an SCC numbering at {u},{v}")
+    nontrivial = {lab[u] for (u, v) in edges if lab[u] == lab[v]}
+    cadj = {}
+    for (u, v) in edges:
+        a, b = lab[u], lab[v]
+        ce = ((f"{a}_expanded" if a in nontrivial else str(a)), str(b)) if a != b else (str(a), f"{a}_expanded")
+        cadj.setdefault(ce[0], []).append(ce[1])
+    anti = [(str(a), str(b)) for (a, b) in antichain]
+    for a in anti:
+        Ra = reach(cadj, a[1])
+        if any(b != a and b[0] in Ra for b in anti):
+            return "VIOLATED"
+    return "ok"
+
+
 def build_capturing(fp, cfg, ctor):
     """run `ctor()` (the real constructor) with `stDAG.compute_max_edge_antichain` wrapped; fill cfg['_cap']"""
     stdag = fp.stdag.stDAG
@@ -56,6 +95,7 @@ def build_capturing(fp, cfg, ctor):
         r = orig(self, get_antichain=get_antichain, weight_function=weight_function)
         if get_antichain and weight_function is not None:
             rec["antichain"] = [[lpdump.rename(str(a)), lpdump.rename(str(b))] for (a, b) in r[1]]
+            rec["raw"] = list(r[1])
         return r
     stdag.compute_max_edge_antichain = wrapped
     try:
@@ -70,6 +110,7 @@ def build_capturing(fp, cfg, ctor):
         "safe_lists": len(getattr(m, "safe_lists", []) or []),
         "walks_to_fix": len(getattr(m, "walks_to_fix", []) or []),
         "zero": len(m.edges_set_to_zero), "one": len(m.edges_set_to_one),
+        "t6": t6_contracts(m.G, rec.get("raw", [])),
     }
     return m
 
@@ -89,6 +130,7 @@ def features(cfg):
         t.append("walks_to_fix=%d" % min(cap["walks_to_fix"], 4))
         t.append("zero>0" if cap["zero"] else "zero=0")
         t.append("one>0" if cap["one"] else "one=0")
+        t.append("t6_contracts:" + cap.get("t6", "unchecked"))
     if cfg["constraints"]:
         t.append("user_subset_constraints")
     if cfg.get("given_weights") is not None:
